@@ -254,6 +254,30 @@ def subquery_keyword_explains(stmt, op, s0, s1):
     return True
 
 
+def alias_leak_shape(stmt):
+    """finding D9-alias-leak: a derived table whose query JOINs a relation under an alias that the ENCLOSING FROM clause also uses
+    (the same name at two nesting levels).  `list_join_clause` crawls into derived tables, so the inner alias is a candidate in the
+    outer scope too; which of the two a qualifier denotes then depends on the spelling."""
+    def aliases_of_from(frm, joins_only=False):
+        out = set()
+        for fe in frm:
+            els = ([] if joins_only else [fe[0]]) + [j[1] for j in fe[1]]
+            for el in els:
+                if isinstance(el, list) and el and el[0] in ("table", "derived") and el[2]:
+                    out.add(norm(el[2]))
+        return out
+    for n in gensql._walk(stmt):
+        if isinstance(n, list) and len(n) == 7 and n[0] == "select":
+            outer = aliases_of_from(n[3])
+            for fe in n[3]:
+                for el in [fe[0]] + [j[1] for j in fe[1]]:
+                    if isinstance(el, list) and el and el[0] == "derived":
+                        for m in gensql._walk(el[1]):
+                            if isinstance(m, list) and len(m) == 7 and m[0] == "select" and aliases_of_from(m[3], joins_only=True) & outer:
+                                return True
+    return False
+
+
 def subquery_keyword_error(stmt, op, s0, s1):
     """model-free description of the listed finding D2-keyword-error: a select-item subquery, a new name that is a keyword, the
     original analysed without error and the renamed text refused with the library's own lineage error"""
@@ -385,6 +409,8 @@ def classify(drv, stmt, op, a, x0, x1, mm0, mm1, cache, listed):
         return "known:D2-keyword-alias", det
     if "D2-keyword-error" in listed and subquery_keyword_error(stmt, op, s0, s1):
         return "known:D2-keyword-error", det
+    if "D9-alias-leak" in listed and owner_only_difference(s0, s1) and (alias_leak_shape(stmt) or alias_leak_shape(a["stmt"])):
+        return "known:D9-alias-leak", det
     if cls == "d7" and "D7" in listed and owner_only_difference(s0, s1):
         # the model does not describe this case — a select-item subquery (`_get_column_from_subquery`), or a dialect that reads
         # the ORIGINAL text differently from the typed AST: D7 is then recognised by its model-free signature — same tables,
